@@ -1,5 +1,17 @@
+//! C01: deterministic transaction execution (re-execution variants over seeded ledger histories).
+mod c01;
+mod wl;
+
 fn main() {
     let args = rv_common::parse_args();
-    eprintln!("no check named {}", args.prop);
-    std::process::exit(2);
+    let code = match args.prop.as_str() {
+        "C01" => c01::run(&args),
+        // hidden: second process of the child-process comparison
+        "C01-child" => c01::child(&args),
+        other => {
+            eprintln!("rv-determinism: no check named {other}");
+            2
+        }
+    };
+    std::process::exit(code);
 }
